@@ -292,7 +292,10 @@ func c19Programs(r *core.Rng, n int) []string {
 			}
 			sort.Strings(an)
 			fn := an[r.Intn(len(an))]
-			arg := []string{"", "v", b(), "v, " + b(), "v, " + b() + ", " + b()}[r.Intn(5)]
+			sb := func() string {
+				return []string{"-1", "-2", "0", "1", "2", "100", "-9223372036854775807", "9223372036854775807", "NULL", "'x'", "1.5", "TRUE"}[r.Intn(12)]
+			}
+			arg := []string{"", "v", b(), "v, " + b(), "v, " + b() + ", " + b(), "v, " + sb(), "v, " + sb() + ", " + sb(), sb()}[r.Intn(8)]
 			fr := []string{"", " ROWS " + b() + " PRECEDING", " ROWS BETWEEN " + b() + " PRECEDING AND " + b() + " FOLLOWING", " ROWS BETWEEN UNBOUNDED PRECEDING AND CURRENT ROW"}[r.Intn(4)]
 			out = append(out, fmt.Sprintf("SELECT id, %s(%s) OVER (PARTITION BY k ORDER BY v%s) FROM t;", fn, arg, fr))
 		case 7:
